@@ -512,7 +512,7 @@ func valuePool() []val {
 		vLong(0), vLong(1), vLong(-1), vLong(3), vLong(64), vLong(2147483648), vLong(-9007199254740993), vLong(mx), vLong(mn), vLong(-9223372036854775807),
 		vFloat(0), vFloat(float32(math.Copysign(0, -1))), vFloat(1), vFloat(0.5), vFloat(1.5), vFloat(2.5), vFloat(-2.5), vFloat(1e-3), vFloat(1e10), vFloat(16777216), vFloat(math.MaxFloat32), vFloat(math.SmallestNonzeroFloat32), vFloat(float32(math.Inf(1))), vFloat(float32(math.NaN())),
 		vDouble(0), vDouble(math.Copysign(0, -1)), vDouble(1), vDouble(-1), vDouble(0.5), vDouble(1.5), vDouble(2.5), vDouble(-2.5), vDouble(1e-3), vDouble(1e10), vDouble(9007199254740992), vDouble(math.MaxFloat64), vDouble(math.SmallestNonzeroFloat64), vDouble(math.Inf(1)), vDouble(math.Inf(-1)), vDouble(math.NaN()),
-		vString(""), vString("0"), vString("1"), vString("12"), vString("-3"), vString("1.5"), vString("abc"), vString("true"), vString("false"), vString(" "), vString("é"), vString("中文"), vString("😀"), vString("Ａ"), vString("\ue000z"), vString("𝑥"), vString("a'b"), vString("2020-01-02T03:04:05Z"), vString("1e3"),
+		vString(""), vString("0"), vString("1"), vString("12"), vString("-3"), vString("1.5"), vString("abc"), vString("true"), vString("false"), vString(" "), vString("é"), vString("中文"), vString("😀"), vString("Ａ"), vString("\ue000z"), vString("𝑥"), vString("a'b"), vString("2020-01-02T03:04:05Z"), vString("1e3"), vString("a\u00a0b"),
 		vBool(true), vBool(false),
 		vSpan(0), vSpan(time.Millisecond), vSpan(-time.Millisecond), vSpan(time.Second), vSpan(36 * time.Hour), vSpan(1), vSpan(time.Duration(1<<43) * time.Millisecond),
 		vTime(time.Time{}), vTime(time.Unix(0, 0).UTC()), vTime(time.Unix(1, 0).UTC()), vTime(time.Date(2020, 2, 29, 12, 0, 0, 0, time.UTC)), vTime(local), vTime(time.Unix(1600000000, 123456789).UTC()),
